@@ -14,10 +14,6 @@ open InToto InToto.Threshold InToto.Rules InToto.Json
 
 variable {K : Type}
 
-/-- the success part of an outcome -/
-def okPart {α : Type} : Out α → Option α
-  | .ok a => some a
-  | _ => none
 
 @[simp] theorem okPart_ok {α : Type} (a : α) : okPart (Out.ok a) = some a := rfl
 @[simp] theorem okPart_err {α : Type} (c : Nat) : okPart (Out.err c : Out α) = none := rfl
@@ -108,15 +104,6 @@ end assoc
 section allSome
 variable {α β : Type}
 
-def allSome (f : α → Option β) : List α → Option (List β)
-  | [] => some []
-  | a :: r =>
-    match f a with
-    | none => none
-    | some b =>
-      match allSome f r with
-      | none => none
-      | some bs => some (b :: bs)
 
 theorem allSome_cons (f : α → Option β) (a : α) (r : List α) :
     allSome f (a :: r) = (f a).bind fun b => (allSome f r).map (b :: ·) := by
